@@ -124,7 +124,8 @@ def join (ty : Option JoinType) (on : Option (List String)) (a b : List Cell) :
 
 /-! ## `merge` -/
 
-/-- `_merge_cell_pair`; `(None, None)` never comes out of `join` (`Properties.C10.pair_not_both_none`);
+/-- `_merge_cell_pair`; `(None, None)` never comes out of `join` (`Properties.C10.pair_not_both_none`, i.e. the
+conjunct `none ∉ ks` of `Properties.C10.join_keys_on`);
 Python would hand `None` to `Triangle(...)` -/
 def mergeCellPair : CellPair → Option Cell
   | (none, c2) => c2
@@ -138,7 +139,8 @@ def merge (ty : Option JoinType) (on : Option (List String)) (a b : List Cell) :
 
 /-! ## `coalesce` -/
 
-/-- `(cell.metadata, cell.period, cell.evaluation_date)` — no `prev`, also for incremental cells -/
+/-- `(cell.metadata, cell.period, cell.evaluation_date)` — no `prev`, also for incremental cells
+(merge.py:195; witness `Properties.C10.coalesce_ignores_prev`) -/
 def coalKey (c : Cell) : Coord := ⟨c.md, c.ps, c.pe, c.ev, none⟩
 
 /-- first element per key, in order of first appearance: `[v[0] for v in grouped.values()]` of a
